@@ -4,6 +4,7 @@ package main
 import (
 	"context"
 	"fmt"
+	"net/url"
 	"runtime"
 	"sort"
 	"strings"
@@ -186,6 +187,25 @@ func shape(p string) string {
 	return sb.String()
 }
 
+// escapeSome replaces some letters of p by their %XX form (never '/' or '%').
+func escapeSome(r *mon.Rand, p string) string {
+	var sb strings.Builder
+	for i := 0; i < len(p); i++ {
+		ch := p[i]
+		if p[i] == '%' && i+2 < len(p) { // an escape that is already there stays
+			sb.WriteString(p[i : i+3])
+			i += 2
+			continue
+		}
+		if ((ch >= 'a' && ch <= 'z') || (ch >= 'A' && ch <= 'Z')) && r.Chance(4) {
+			fmt.Fprintf(&sb, r.Str("%%%02x", "%%%02X"), ch)
+			continue
+		}
+		sb.WriteByte(ch)
+	}
+	return sb.String()
+}
+
 // wireOf: the request target whose single percent-decoding is the probe path
 func wireOf(p string) string { return strings.ReplaceAll(p, "%", "%25") }
 
@@ -246,6 +266,9 @@ func probes(r *mon.Rand, routes []string, n int) []string {
 type opts struct {
 	tsr, fixed, m405 bool
 	nmw              int
+	// useRaw: UseRawPath (with UnescapePathValues at its default): the router matches the
+	// path as it came over the wire and hands out parameter values unescaped
+	useRaw bool
 }
 
 type hitRec struct {
@@ -263,6 +286,7 @@ func build(routes []string, methods []string, order []int, o opts, hit *hitRec) 
 		c.RedirectTrailingSlash = o.tsr
 		c.RedirectFixedPath = o.fixed
 		c.HandleMethodNotAllowed = o.m405
+		c.UseRawPath = o.useRaw
 	})
 	e = route.NewEngine(opt)
 	// pass-through middleware attached one Use call at a time (0..6 of them): the handler
@@ -307,7 +331,7 @@ func checkSet(w *mon.W, c *mon.Case, routes []string, exhaustiveFamily bool) {
 			methods[i] = "POST"
 		}
 	}
-	o := opts{tsr: r.Bool(), fixed: r.Chance(3), m405: r.Bool(), nmw: r.Intn(7)}
+	o := opts{tsr: r.Bool(), fixed: r.Chance(3), m405: r.Bool(), nmw: r.Intn(7), useRaw: !exhaustiveFamily && r.Chance(4)}
 	var orders [][]int
 	if nr <= 4 {
 		orders = permutations(nr)
@@ -378,12 +402,35 @@ func checkSet(w *mon.W, c *mon.Case, routes []string, exhaustiveFamily bool) {
 				} else {
 					ctx = e.NewContext()
 				}
-				ctx.Request.SetRequestURI(wireOf(p))
+				target := wireOf(p)
+				if o.useRaw {
+					// the probe is the raw path itself; some of its letters travel escaped
+					if strings.Contains(p, "+") {
+						continue
+					}
+					target = escapeSome(r, p)
+					p = target
+				}
+				ctx.Request.SetRequestURI(target)
 				ctx.Request.Header.SetMethod(m)
 				ctx.Request.SetHost("h")
 				e.ServeHTTP(context.Background(), ctx)
 				w.Count("probes", 1)
 				want := refMatch(pats, candsFor(m), p, 0, nil, nil)
+				if o.useRaw && want != nil {
+					bad := false
+					for i, v := range want.values {
+						u, err := url.PathUnescape(v)
+						if err != nil {
+							bad = true
+						}
+						want.values[i] = u
+					}
+					if bad {
+						continue
+					}
+					w.Count("raw_path_probes", 1)
+				}
 				got := hit.idx
 				fail := ""
 				switch {
